@@ -90,7 +90,12 @@ class Checker:
         try:
             yield
         except DefiniteBug as e:
-            self.violation(rule, instance, e.site or site, "evaluating this operation always fails: %s" % e.exc)
+            if str(e.site or "").startswith("<entry>") and "unexpected keyword" in str(e.exc):
+                # the rule's own call of the entry point uses a keyword the routine no longer has: the rule does not apply as
+                # written (where the option went - another routine, another name - is not followed)
+                self.undecided(rule, instance, site, "the routine no longer takes the keyword this rule calls it with: %s" % e.exc)
+            else:
+                self.violation(rule, instance, e.site or site, "evaluating this operation always fails: %s" % e.exc)
         except Unsupported as e:
             self.undecided(rule, instance, e.site or site, "outside analyser vocabulary: %s" % e)
         except PathBudget as e:
